@@ -69,6 +69,7 @@
 #define VF_CFGS( e, TOP, ACT )                                                                                                 \
    VF_CFG( "act-req-obs-eager", TOP, ACT, vf::obs_control_unw, action, required, eager, true, true, false, true, true );        \
    VF_CFG( "act-opt-obsnu-lazy", TOP, ACT, vf::obs_control_nounwind, action, optional, lazy, true, false, true, true, true );   \
+   VF_CFG( "act-opt-obsvisible-eager", TOP, ACT, vf::obs_control_visible, action, optional, eager, true, false, false, true, true ); \
    e.cfgs.push_back( vf::cfg_entry{ "act-req-statectl-eager", &vf::runner_statectl< TOP, ACT, tao::pegtl::apply_mode::action, tao::pegtl::rewind_mode::required, tao::pegtl::tracking_mode::eager, VF_EOL >, true, true, false, true, true, VF_EOL_ID } ); \
    e.cfgs.push_back( vf::cfg_entry{ "act-coverage-eager", &vf::runner_coverage< TOP, ACT, tao::pegtl::tracking_mode::eager, VF_EOL >, true, false, false, true, true, VF_EOL_ID } )
 #else
